@@ -36,6 +36,14 @@ Record Fixes := mkFixes {
   fx_builtin : bool;       (* main removes / restores builtins.profile *)
   fx_autoprof : bool;      (* -l: outstanding enable_by_count() calls - auto-profiling's registration statements
                               (-p), or the program's own - are balanced before main ends *)
+  fx_profile_first : bool; (* main hands the decorator back at the TOP of its finally, before it writes /
+                              shows the results - which can fail (5d3505e) *)
+  fx_missing : bool;       (* a script / module that cannot be found: the decorator (already taken over) is
+                              handed back before SystemExit leaves main *)
+  fx_untraced : bool;      (* -l: main also releases the profiler when the program did
+                              `profile.enable(); sys.settrace(None)` (trace function gone, sys.monitoring id kept) *)
+  fx_cprofile_off : bool;  (* cProfile flavour: main switches the profiler off itself instead of relying on
+                              dump_stats() -> create_stats() (which is not reached when the output file cannot be opened) *)
   fx_direct_enable : bool  (* -l: main switches the LineProfiler off even when the program called
                               profile.enable() itself and ended before profile.disable().  fcd15c8 does it
                               only `if sys.gettrace() is prof`, i.e. when the trace slot holds THIS run's
@@ -50,11 +58,12 @@ Record Fixes := mkFixes {
    decorator state handed back (2d3e878), one timer (204c2e5), auto-profiling's
    enable_by_count() balanced in main's finally (a77d816).
    fcd15c8: -l also undoes a program's own profile.enable()
-   (`if sys.gettrace() is prof: prof.disable()`).
-   not changed: sys.argv is still rebound by main (harmless now); builtins.profile stays. *)
-Definition current : Fixes := mkFixes false true true true true false true true.
+   (`if sys.gettrace() is prof: prof.disable()`); 5d3505e: the decorator is handed back first.
+   not changed: sys.argv is still rebound by main (harmless now); builtins.profile stays;
+   three defects: fx_missing, fx_untraced, fx_cprofile_off (see Props/C19.v). *)
+Definition current : Fixes := mkFixes false true true true true false true true false false false true.
 (* the tree before the repairs *)
-Definition unrepaired : Fixes := mkFixes false false false false false false false false.
+Definition unrepaired : Fixes := mkFixes false false false false false false false false false false false false.
 
 (* ---- the state --------------------------------------------------------------------- *)
 Definition heap := Z -> list string.
@@ -175,7 +184,9 @@ Inductive result := Returned | Raised.                    (* how kernprof.main e
 Inductive leave :=
 | LNone                    (* no, or balanced: enable()..disable(), `with profile:`, decorated functions *)
 | LEnable                  (* profile.enable() without disable() *)
-| LByCount.                (* profile.enable_by_count() / profile.__enter__() without the matching exit *)
+| LByCount                 (* profile.enable_by_count() / profile.__enter__() without the matching exit *)
+| LEnableUntraced.         (* profile.enable() and later sys.settrace(None): the trace function is gone,
+                              the sys.monitoring tool id the profiler claimed is not released *)
 
 Record Prog := mkProg {
   p_outcome : outcome;
@@ -203,6 +214,10 @@ Record Opts := mkOpts {
   o_setup_uses : list uop;     (* what the setup file does with line_profiler.profile (it runs
                                   "outside of the profiler": before kernprof takes the decorator over) *)
   o_interval : Z;              (* -i N (0 = not given / 0) *)
+  o_dump_fails : bool;         (* -o names a file that cannot be opened: prof.dump_stats() raises in main's finally *)
+  o_print_fails : bool;        (* sys.stdout is closed: the first print() after the dump raises in main's finally *)
+  o_script_missing : bool;     (* the script / module does not exist: find_script() raises SystemExit(1) - after
+                                  the profiler was installed into the decorator and builtins, before the try *)
   o_new_argv : list string;    (* [script] + args *)
   o_script_dir : string;       (* os.path.dirname(script_file) *)
   o_cwd : string               (* os.path.abspath(os.curdir) *)
@@ -236,15 +251,26 @@ Definition cprofile_dump_disables : bool := true.
 
 (* does this run end with its own profiler still enabled? *)
 Definition leaks (cfg : Fixes) (o : Opts) (p : Prog) : bool :=
+  negb (o_script_missing o) &&
   if o_line o then
     ((registers o p || match p_leaves p with LByCount => true | _ => false end) && negb (fx_autoprof cfg))
     || (match p_leaves p with LEnable => true | _ => false end && negb (fx_direct_enable cfg))
+    || (match p_leaves p with LEnableUntraced => true | _ => false end && negb (fx_untraced cfg))
   else if o_builtin o then
-    match p_leaves p with LNone => false | _ => negb cprofile_dump_disables end
+    match p_leaves p with
+    | LNone => false
+    | _ => negb (fx_cprofile_off cfg) && (negb cprofile_dump_disables || o_dump_fails o)
+    end
   else false.
 
+(* does main get as far as the profiled program? *)
+Definition ran (o : Opts) : bool := negb (o_script_missing o).
+Definition timed (o : Opts) : bool := (0 <? o_interval o) && ran o.
+(* writing / announcing / showing the results fails: an exception leaves main's finally *)
+Definition results_fail (o : Opts) : bool := ran o && (o_dump_fails o || o_print_fails o).
+
 Definition body_runs (o : Opts) (p : Prog) (found_tracing : option prof) : bool :=
-  negb (is_some found_tracing) || ((o_line o || o_builtin o) && negb (registers o p)).
+  ran o && (negb (is_some found_tracing) || ((o_line o || o_builtin o) && negb (registers o p))).
 
 (* How the program really ends.  Besides the above: in plain cProfile mode kernprof does not set
    builtins.profile, so a program that uses the builtin when there is one picks up whatever an
@@ -254,6 +280,9 @@ Definition effective_outcome (o : Opts) (p : Prog) (found_builtin found_tracing 
   if is_some found_tracing then Exc
   else if p_uses_builtin p && negb (o_line o || o_builtin o) && is_some found_builtin
   then Exc else p_outcome p.
+
+Definition run_result (o : Opts) (eff : outcome) : result :=
+  if negb (ran o) || results_fail o then Raised else result_of eff.
 
 Definition assign_argv (cfg : Fixes) (v : list string) (c : cell) : cell :=
   if fx_argv_inplace cfg then write_obj (ref c) v c
@@ -278,9 +307,9 @@ Definition main_body (cfg : Fixes) (o : Opts) (p : Prog) (s : St) : result * St 
   let found_builtin := builtin s in
   let s := set_builtin (if o_line o || o_builtin o then Some pr else builtin s) s in
   (* 489-495: script mode: sys.path.insert(0, dirname(script_file)) *)
-  let s := upd_path (fun c => if o_module o then c else insert0 (o_script_dir o) c) s in
+  let s := upd_path (fun c => if o_module o || negb (ran o) then c else insert0 (o_script_dir o) c) s in
   (* 499-501: the RepeatedTimer (created twice before 204c2e5) *)
-  let timed := 0 <? o_interval o in
+  let timed := timed o in
   let s := set_timers (timers s + (if timed then (if fx_timer cfg then 1 else 2) else 0)) s in
   (* 502-532: try: the program runs; its profiled parts run with the profiler enabled and
      every one of them switches it off again on the way out (wrappers / runctx use finally) *)
@@ -304,11 +333,16 @@ Definition main_body (cfg : Fixes) (o : Opts) (p : Prog) (s : St) : result * St 
   let s := set_timers (timers s - (if timed then 1 else 0)
                        + (if timed then Z.of_nat (rt_leftover rearm_before_dump (p_sched p)) else 0)) s in
   (* 556-558: the decorator state is handed back (install_profiler(None) before 2d3e878) *)
-  let s := set_gp (if fx_profile cfg
-                   then set_enabled (f_enabled found) (set_profile (f_profile found) (gp s))
-                   else overwrite (gp s) None) s in
+  (* in the finally the decorator is handed back FIRST (5d3505e; last before that, so that a failing
+     dump / print / view skipped it); a missing script never reaches the try at all *)
+  let handed_back := if ran o then fx_profile_first cfg || negb (results_fail o) else fx_missing cfg in
+  let s := set_gp (if handed_back
+                   then (if fx_profile cfg || negb (ran o)
+                         then set_enabled (f_enabled found) (set_profile (f_profile found) (gp s))
+                         else overwrite (gp s) None)
+                   else gp s) s in
   let s := set_builtin (if fx_builtin cfg then found_builtin else builtin s) s in
-  (result_of (effective_outcome o p found_builtin found_tracing), s).
+  (run_result o (effective_outcome o p found_builtin found_tracing), s).
 
 (* ---- the restoring decorator(s) around main, as contextlib runs them ------------------------------------- *)
 Definition restore_cell (cfg : Fixes) (lst : Z) (old : list string) (c : cell) : cell :=
@@ -407,6 +441,6 @@ Definition mk_state (argv0 : list string) (argv_rebound : bool) (path0 : list st
   mkSt (mk_cell argv0 argv_rebound) (mk_cell path0 path_rebound) g None 0 None nprof.
 
 Definition st0 : St := mk_state ["driver"] false ["/lib"] false gp_init 0.
-Definition opts0 : Opts := mkOpts true false false None [] 0 ["prog.py"; "a"] "" "/T".
+Definition opts0 : Opts := mkOpts true false false None [] 0 false false false ["prog.py"; "a"] "" "/T".
 Definition returns : Prog := mkProg Return false false false false true LNone 0 [].
 Definition raises : Prog := mkProg Exc false false false false true LNone 0 [Fire].
